@@ -214,7 +214,7 @@ def walk_valid(rng, pb, v, stop_p=0.3):
 def probe(rng, pb, v):
     """Append one accessor chosen without regard to (or against) the shape of v."""
     kind = rng.choice(["missing_field", "missing_field_scalar", "oob", "oob_scalar", "big_index", "field_any", "index_any",
-                       "bad_type", "bad_type", "uninit", "notfound", "string_digit"])
+                       "bad_type", "bad_type", "uninit", "notfound", "string_digit", "neg_index", "float_index"])
     if kind == "missing_field":
         pb.raw(".zz")
     elif kind == "missing_field_scalar":
@@ -235,6 +235,10 @@ def probe(rng, pb, v):
         pb.raw(".[%s]" % pb.scalar(rng.choice([0, "a"]), mode="uninit"))
     elif kind == "notfound":
         pb.raw(".[%s]" % pb.scalar(rng.choice([0, "a"]), mode="notfound"))
+    elif kind == "neg_index":                                   # -i where i is a valid index
+        pb.raw(".[%s]" % pb.scalar(-rng.randrange(1, len(v)) if isinstance(v, list) and len(v) > 1 else -1))
+    elif kind == "float_index":                                 # i.0 where i is a valid index
+        pb.raw(".[%s]" % pb.scalar(float(rng.randrange(len(v))) if isinstance(v, list) and v else 0.0))
     elif kind == "string_digit":
         pb.raw(".[%s]" % pb.scalar(rng.choice(["0", "1"])))     # a string that looks like an index
     if rng.random() < 0.3:                                      # something after the (probable) failure
